@@ -153,20 +153,7 @@ inline SymBool operator!=(const Sym& a, const Sym& b) {
   if (a.is_const() && b.is_const()) return SymBool(a.c != b.c);
   return SymBool(Store::get().add("(not (= " + a.term() + " " + b.term() + "))", true), 0);
 }
-inline SymBool operator!(const SymBool& a) {
-  if (a.known) return SymBool(!a.val);
-  return SymBool(Store::get().add("(not " + a.term() + ")", true), 0);
-}
-inline SymBool operator&&(const SymBool& a, const SymBool& b) {
-  if (a.known) return a.val ? b : SymBool(false);
-  if (b.known) return b.val ? a : SymBool(false);
-  return SymBool(Store::get().add("(and " + a.term() + " " + b.term() + ")", true), 0);
-}
-inline SymBool operator||(const SymBool& a, const SymBool& b) {
-  if (a.known) return a.val ? SymBool(true) : b;
-  if (b.known) return b.val ? SymBool(true) : a;
-  return SymBool(Store::get().add("(or " + a.term() + " " + b.term() + ")", true), 0);
-}
+// no overloaded && / || / !: SymBool converts to bool (forking), which keeps the short-circuit semantics of the real code
 
 inline Sym un(const char* f, const Sym& a) { return Sym::node(std::string("(uf_") + f + " " + a.term() + ")"); }
 inline Sym sin(const Sym& a) { return a.is_const() ? Sym(std::sin(a.c)) : un("sin", a); }
@@ -236,6 +223,7 @@ inline S in(const std::string& name) { return Sym::input(name); }
 inline void out(const std::string& name, const S& v) { Store::get().outs.emplace_back(name, v.term()); }
 inline void out_bool(const std::string& name, const SymBool& v) { Store::get().outs.emplace_back("B:" + name, v.term()); }
 inline void note(const std::string& what) { Store::get().notes.push_back(what); }
+inline void note_val(const std::string& what, const S&) { Store::get().notes.push_back(what); }
 inline void init(const char* prefix) {
   Store& s = Store::get();
   s.prefix = prefix;
@@ -319,6 +307,7 @@ inline S in(const std::string& name) {
 inline void out(const std::string& name, S v) { printf("out %s %.17g\n", name.c_str(), v); }
 inline void out_bool(const std::string& name, bool v) { printf("outb %s %d\n", name.c_str(), v ? 1 : 0); }
 inline void note(const std::string& what) { printf("note %s\n", what.c_str()); }
+inline void note_val(const std::string& what, S v) { printf("note %s %.17g\n", what.c_str(), v); }
 inline void finish() {
   fflush(nullptr);
   exit(0);
